@@ -79,7 +79,8 @@ impl QueuingMetricSinkBuilder {
 
         spawn_worker_in_thread(worker.clone());
 
-        QueuingMetricSink { worker, sink }
+        let stopper = Arc::new(Stopper { worker: worker.clone() });
+        QueuingMetricSink { worker, sink, stopper }
     }
 
     /// Set error handler called when the wrapped sink fails to emit a metric.
@@ -154,6 +155,9 @@ impl QueuingMetricSinkBuilder {
 pub struct QueuingMetricSink {
     worker: Arc<Worker>,
     sink: Arc<dyn MetricSink + Send + Sync + RefUnwindSafe>,
+    // Shared by all clones of this sink, stops the worker when the last one is dropped.
+    #[allow(dead_code)]
+    stopper: Arc<Stopper>,
 }
 
 impl fmt::Debug for QueuingMetricSink {
@@ -288,8 +292,14 @@ impl MetricSink for QueuingMetricSink {
     }
 }
 
-impl Drop for QueuingMetricSink {
-    /// Send the worker a signal to stop processing metrics.
+/// Token shared by a `QueuingMetricSink` and all of its clones.
+struct Stopper {
+    worker: Arc<Worker>,
+}
+
+impl Drop for Stopper {
+    /// Send the worker a signal to stop processing metrics once the last
+    /// clone of the sink is destroyed.
     ///
     /// Note that this destructor only sends the worker thread a signal to
     /// stop, it doesn't wait for it to stop.
